@@ -99,6 +99,11 @@ def shards(tier):
     for lk, rk, la, ra, full in CROSS:
         for renamed in (False, True):
             out.append({"part": "cross", "lk": lk, "rk": rk, "la": la, "ra": ra, "full": full, "renamed": renamed, "n": 3})
+    # size ladder: LONG right frames whose keys repeat (the FIRST of the equal-keyed right rows is the match, also where
+    # a sort inside the lookup stops being stable: NumPy sorts up to 16 elements by insertion)
+    for kind in ("i8", "f8", "D", "str", "us"):
+        for length in ([17, 40, 130] if tier == "quick" else [17, 40, 130, 1025]):
+            out.append({"part": "long", "kind": kind, "length": length})
     from mc import harness
     return harness.with_array_forms(out, tier, lambda sh: sh["part"] == "one" and sh["kind"] in ("f8", "str", "D") and not sh["renamed"]
                                     and sh.get("lfirst") in (None, 0) and sh["n"] <= 3 and sh.get("asize", 3) == (3 if tier == "quick" else 4))
@@ -353,6 +358,22 @@ def run_shard(shard, rec):
                             own = [["k", rkind, [alpha[-1 - (i % 2)] for i in range(len(rt))]]]
                             check_case(dict(case, R=case["R"] + own, poke=False), rec)
                             check_case(dict(case, R=own + case["R"], poke=False, rkey_at=1), rec)
+    elif shard["part"] == "long":
+        kind, length = shard["kind"], shard["length"]
+        alpha = KEY_ALPHA[kind][:4]
+        vals = [t for t in alpha if t is not None]
+        left = vals + ([None] if None in alpha else []) + vals[:1]
+        for period in (2, 3, 5):
+            for pat in itertools.product(alpha, repeat=min(period, 3)):
+                if len(set(pat)) < 2:
+                    continue
+                pat = list(pat) + [pat[0]] * (period - len(pat))
+                rt = [pat[i % period] for i in range(length)]
+                for renamed in (False, True):
+                    rname = "rk" if renamed else "k"
+                    Rc = [[rname, kind, rt], ["rid", "i8", list(range(length))], ["rs", "str", [None if i % 7 == 1 else "R" + str(i) for i in range(length)]]]
+                    check_case({"L": left_cols([["k", kind, left]], len(left)), "R": Rc, "by": [["k", "rk"]] if renamed else ["k"], "joins": JOINS}, rec)
+        rec.sample({"part": "long", "kind": kind, "length": length})
     elif shard["part"] == "cross":
         n = shard["n"]
         rname = "rk" if shard["renamed"] else "k"
